@@ -8,6 +8,7 @@ import IpcHub.Model.MediaInst
 import IpcHub.Props.C01
 import IpcHub.Model.FlvCacheM
 import IpcHub.Lemmas.FlvCacheM
+import IpcHub.Lemmas.MediaPacketise
 namespace IpcHub.Props.C02
 open IpcHub.Media
 open IpcHub.Props.C01 (subseq countOf)
@@ -111,6 +112,64 @@ theorem c02_stap_sps_idr_not_key :
     pktKind genConsts false stap = .sps ∧
     ((packAll genConsts { hevc := false, cacheGop := true } [stap]).gop = []) := by
   decide
+
+/-- What the cache makes of the packets an RFC 6184 sender produces (the independent packetiser
+    Spec/Packetise.lean), for EVERY legal packetisation decision — any NAL bytes and sizes, any
+    fragment sizes, any aggregation grouping:
+    * a NAL unit sent as a single NAL unit packet is classified by its own type (SPS → SPS slot,
+      PPS → PPS slot, IDR → key frame / start of the GOP, anything else → GOP member);
+    * of a NAL unit sent as FU-A fragments the FIRST fragment is classified by the unit's type and
+      every later fragment is a GOP member (so the whole fragmented IDR lands in the GOP);
+    * a STAP-A packet is classified by the union of its units' types, parameter sets first — which
+      is exactly why an aggregation carrying SPS/PPS together with an IDR is "the SPS packet"
+      (open known finding; `c02_stap_sps_idr_not_key`).
+    Together with `c02_cache_state` this gives the replay in terms of the sender's frames.
+    Hypothesis: a single NAL unit packet has at least 3 bytes (the classifier ignores shorter
+    payloads; no parameter set or slice is that short). -/
+theorem c02_decodable_h264 (it : IpcHub.Packetise.Item) (hleg : IpcHub.Packetise.legal264 it = true)
+    (hlen : ∀ ts m n, it = .single ts m n → 3 ≤ n.length) :
+    (IpcHub.Packetise.payloads264 it).map payloadKind =
+      match it with
+      | .single _ _ n => [kindOfType (nalType n)]
+      | .frag _ _ n cuts => kindOfType (nalType n) :: List.replicate cuts.length .other
+      | .agg _ _ ns => [kindOfFlags (aggFlags ns)] := by
+  cases it with
+  | single ts m n =>
+    have hok : IpcHub.Packetise.nalOk264 n = true := by simpa [IpcHub.Packetise.legal264] using hleg
+    simp only [IpcHub.Packetise.payloads264, List.map_cons, List.map_nil]
+    rw [payloadKind_of_classify _ _ (classify_single n hok (hlen ts m n rfl)), kindOfFlags_type]
+  | agg ts m ns =>
+    simp only [IpcHub.Packetise.legal264, Bool.and_eq_true, Bool.not_eq_true', List.all_eq_true,
+      decide_eq_true_eq] at hleg
+    obtain ⟨hne, hall⟩ := hleg
+    have hne' : ns ≠ [] := by intro e; simp [e] at hne
+    have hok : ∀ n ∈ ns, aggOk n := by
+      intro n hn
+      obtain ⟨h1, h2⟩ := hall n hn
+      refine ⟨?_, h2⟩
+      cases n with
+      | nil => simp [IpcHub.Packetise.nalOk264] at h1
+      | cons b tl => simp
+    simp only [IpcHub.Packetise.payloads264, List.map_cons, List.map_nil]
+    rw [payloadKind_of_classify _ _ (classify_stapa ns hne' hok)]
+  | frag ts m n cuts =>
+    simp only [IpcHub.Packetise.legal264, Bool.and_eq_true] at hleg
+    obtain ⟨hok, hcuts⟩ := hleg
+    cases n with
+    | nil => simp [IpcHub.Packetise.nalOk264] at hok
+    | cons h data =>
+      simp only [IpcHub.Packetise.cutsOk, Bool.and_eq_true, Bool.not_eq_true', List.all_eq_true,
+        decide_eq_true_eq, List.length_cons, Nat.add_sub_cancel] at hcuts
+      obtain ⟨⟨_, hge⟩, hsum⟩ := hcuts
+      have hch := chunks_nonempty cuts data hge hsum
+      have hl := chunks_length cuts data
+      simp only [IpcHub.Packetise.payloads264]
+      rw [fua_kinds h _ hch true]
+      have hne : (IpcHub.Packetise.chunks cuts data).isEmpty = false := by
+        cases hc : IpcHub.Packetise.chunks cuts data with
+        | nil => rw [hc] at hl; simp at hl
+        | cons d tl => rfl
+      simp [hne, hl, nalType]
 
 /-- FLV variant: whatever tags were written, a joining FLV consumer is first given the cached
     metadata, video and audio sequence headers (in that order, those that exist), every one of them
